@@ -71,7 +71,7 @@ theorem isoValid_assembled {T : Table} (hT : T.WF) {cc b : Str} {e : Country}
   obtain ⟨a', b', hcd, _, _⟩ := hW.code
   rw [hcd] at hcode
   subst hcode
-  obtain ⟨l, hps, _, hexp⟩ := hW.spec
+  obtain ⟨l, _, hps, _, _, hexp⟩ := hW.spec
   have hf' := hf
   simp only [fits, hps] at hf'
   have hlen := fitsClasses_length _ _ hf'
